@@ -18,6 +18,30 @@ class Head(packet.Packet):
         formats.UInt8Field('version', default=None),
     ]
 
+    # Size of the fixed fields of this header
+    HEAD_SIZE = 5
+
+    def pre_dissect(self, s):
+        ''' Require the fixed part to be present. '''
+        if len(s) < self.HEAD_SIZE:
+            raise formats.VerifyError('Contact header is incomplete')
+        return s
+
+    def post_dissection(self, pkt):
+        ''' Verify that a known version has its full header and keep
+        any trailing data out of this packet. '''
+        formats.remove_padding(self)
+
+        cls = self.guess_payload_class(b'')
+        if issubclass(cls, formats.NoPayloadPacket):
+            if not isinstance(self.payload, cls):
+                raise formats.VerifyError('Contact header without version-specific part')
+        elif isinstance(self.payload, packet.Raw):
+            # unknown version, its size is also unknown
+            self.remove_payload()
+
+        packet.Packet.post_dissection(self, pkt)
+
 
 class ContactV3(formats.NoPayloadPacket):
     ''' TCPCLv3 contact header pseudo-message. '''
